@@ -4,7 +4,7 @@ seeded/README.md + seeded/detection.json.  Usage: tools/seeded_table.py [id ...]
 import json, os, re, subprocess, sys
 HERE = os.path.dirname(os.path.dirname(os.path.abspath(__file__)))
 SEEDED = os.path.join(HERE, 'seeded')
-EXTRA = {'C13-3': ['C12']}      # also caught by these checks
+EXTRA = {'C13-3': ['C12'], 'C05-4': ['C03']}      # also caught by these checks (the seed breaks the code of another property's check)
 
 
 def run(seed, prop):
